@@ -142,7 +142,7 @@ def gen_cases(rng: Rng, tier):
             t1, t2 = grid(rng, 2), grid(rng, 3)
             X, ck = curves(rng, n, [Fraction(j) for j in range(6)], "rough")
             data = dict(dim=2, t=Svec(t1), t2=Svec(t2), X=Smat(X))
-        yield dict(kind="ufpca", method="inner-product", normalize=bool(i % 2), score="InnPro", sel=rng.choice([["int", 2], ["all"]]),
+        yield dict(kind="ufpca", method="inner-product", normalize=bool(i % 2), score="InnPro", sel=["all"],
                    ck="blocksize", a="1", b="-1/2", seed=rng.subseed(), **data)
     M = 80 if tier == "thorough" else 10
     for k in range(M):
@@ -784,6 +784,20 @@ def _oracle_one(case, impl):
         bad("innpro_rejects", f"InnPro on a covariance fit: expected ValueError, got {impl.get('innpro_on_cov_err')}")
     if impl.get("bad_method_err") != "ValueError":
         bad("innpro_rejects", f"unknown score method: expected ValueError, got {impl.get('bad_method_err')}")
+    # --- Gram-based scores are (rescaled) projections on the eigenfunctions, component by component (also when other
+    #     retained components are non-finite):  <z_i, phi_k>_w = s_ik (l_k + σ²)/l_k, l_k = n λ_k  (C02.gram_proj)
+    if case["method"] == "inner-product" and score == "InnPro" and K and S0 is not None:
+        Z = (X - mean) / r
+        lk = n * vals
+        sig = impl["noise"]
+        for k in range(K):
+            if lk[k] > 1e-10 * n * lam_max and np.all(np.isfinite(Phi[k])) and np.all(np.isfinite(S0[:, k])):
+                proj_k = (Z * w) @ Phi[k]
+                want = S0[:, k] * (lk[k] + sig) / lk[k]
+                if np.abs(proj_k - want).max() > 1e-7 * max(np.abs(want).max(), np.abs(Z).max() * np.abs(Phi[k]).max() * w.sum(), 1e-300):
+                    i = int(np.abs(proj_k - want).argmax())
+                    bad("innpro_projection", f"Gram-based score [{i},{k}] = {S0[i, k]!r} is not the projection of curve {i} on eigenfunction {k} (<z,phi> = {proj_k[i]!r}, expected {want[i]!r}; n_obs = {n})")
+                    break
     if S0 is None or not finite or not np.all(np.isfinite(S0)):
         return vs  # non-finite eigenfunctions (Gram route, clipped eigenvalue) are C02's finding
     # --- natural scores are uncorrelated with variance λ
@@ -798,20 +812,6 @@ def _oracle_one(case, impl):
         if np.abs(D).max() > 1e-8 * lam_max:
             i, j = np.unravel_index(np.abs(D).argmax(), D.shape)
             bad("scores_cov", f"score covariance [{i},{j}] = {Cs[i, j]!r}, expected {vals[i] if i == j else 0.0!r}")
-    # --- Gram-based scores are (rescaled) projections on the eigenfunctions:
-    #     <z_i, phi_k>_w = s_ik (l_k + σ²)/l_k, l_k = n λ_k  (C02.gram_proj)
-    if case["method"] == "inner-product" and score == "InnPro" and K:
-        Z = (X - mean) / r
-        proj = (Z * w) @ Phi.T
-        lk = n * vals
-        sig = impl["noise"]
-        for k in range(K):
-            if lk[k] > 1e-10 * n * lam_max:
-                want = S0[:, k] * (lk[k] + sig) / lk[k]
-                if np.abs(proj[:, k] - want).max() > 1e-7 * max(np.abs(want).max(), np.abs(Z).max() * np.abs(Phi[k]).max() * w.sum(), 1e-300):
-                    i = int(np.abs(proj[:, k] - want).argmax())
-                    bad("innpro_projection", f"Gram-based score [{i},{k}] = {S0[i, k]!r} is not the projection of curve {i} on eigenfunction {k} (<z,phi> = {proj[i, k]!r}, expected {want[i]!r}; n_obs = {n})")
-                    break
     # --- explicit training data = stored training data
     if score in ("NumInt", "PACE"):
         S1 = None if impl.get("s_train") is None else np.array(impl["s_train"], dtype=float).reshape(n, K)
